@@ -225,6 +225,22 @@ def add_cost_flags(p: dict, rng: random.Random, flags: set | None = None):
         p['Surface Piping Length'] = fmt(rng.uniform(0, 10))
 
 
+SENTINEL_DEFAULTS = ['Reservoir Stimulation Capital Cost', 'Exploration Capital Cost', 'Well Drilling and Completion Capital Cost', 'Wellfield O&M Cost',
+                     'Surface Plant Capital Cost', 'Field Gathering System Capital Cost', 'Surface Plant O&M Cost', 'Water Cost', 'Total Capital Cost',
+                     'Total O&M Cost']
+
+
+def add_restated_sentinels(p: dict, rng: random.Random, n: int | None = None) -> list:
+    """Write the documented 'not provided' sentinel (-1) explicitly for costs the configuration leaves to the correlations:
+    the run must be the same as without the line (the reader marks such a parameter Provided but not Valid)."""
+    free = [k for k in SENTINEL_DEFAULTS if k not in p]
+    pick = rng.sample(free, min(len(free), n or rng.randint(1, 3)))
+    pick += [k for k in ('Total O&M Cost', 'Total Capital Cost') if k in free and k not in pick and rng.random() < 0.7]   # the totals select whole report branches
+    for k in pick:
+        p[k] = -1
+    return pick
+
+
 def add_redrill(p: dict, rng: random.Random):
     p['Maximum Drawdown'] = fmt(rng.uniform(0.005, 0.3))
     if p.get('Reservoir Model') == 4:
@@ -303,6 +319,8 @@ def grid(seed_: int, n: int, resmodels=(4, 3), econs=(1, 2, 3), with_extras: boo
                 add_overpressure(p, rng); tags.append('overp')
             if rng.random() < 0.25:
                 add_segments(p, rng, rng.choice([2, 3, 4])); tags.append('seg')
+            if rng.random() < 0.12:
+                add_restated_sentinels(p, rng); tags.append('sentinel')
             if rng.random() < 0.3:
                 p['Discount Initial Year Cashflow'] = 'True'
             p['Fixed Internal Rate'] = fmt(rng.uniform(0, 15))
